@@ -81,13 +81,54 @@ class C20(Prop):
                     calls.append(G.op_match_doc(api, h, t, r.choice(G.JSON_DOCS)))
             ops += calls + [{"op": "counters"}]
             cases.append({"ci": False, "updvar": "unset", "colour": False, "ops": ops, "meta": {"oracle_only": True}})
+        # ... an existing snapshot cannot be REWRITTEN (immutable files): update mode, changed values, all five entry points
+        for i in range(n // 15):
+            r = rng.fork()
+            t = r.choice(G.TEST_NAMES)
+            ops = [G.op_newconfig(dir=b"ok")]
+            rec, chg = [], []
+            for api in r.shuffle(["snap", "json", "yaml", "stand", "standjson"])[: r.range(2, 5)]:
+                if api == "snap":
+                    rec.append(G.op_match_snap(1, t, [b"old value"])); chg.append(G.op_match_snap(1, t, [b"new value\nlonger"]))
+                elif api == "stand":
+                    rec.append(G.op_match_doc("stand", 1, t, b"old")); chg.append(G.op_match_doc("stand", 1, t, b"new"))
+                elif api == "yaml":
+                    rec.append(G.op_match_doc("yaml", 1, t, b"a: 1\n")); chg.append(G.op_match_doc("yaml", 1, t, b"a: 2\nb: 3\n"))
+                else:
+                    rec.append(G.op_match_doc(api, 1, t, b'{"a":1}')); chg.append(G.op_match_doc(api, 1, t, b'{"a":2,"b":[1,2]}'))
+            ops += rec + [G.op_end(t), {"op": "counters"}, {"op": "newprocess"}, G.op_newconfig(dir=b"ok"), G.op_setenv(False, "true"),
+                          {"op": "lockfiles"}] + chg + [{"op": "counters"}, {"op": "unlockfiles"}]
+            cases.append({"ci": False, "updvar": "unset", "colour": False, "ops": ops, "meta": {"oracle_only": True, "locked": True}})
         return cases
 
     def oracle(self, case, ops, results):
         fails = []
         tally = {"erred": 0, "added": 0, "updated": 0, "passed": 0, "skipped": 0}
         it = iter(ops)
-        opl = [o for o in ops if o[0] not in ("init", "dumpfs")]
+        opl = [o for o in ops if o[0] not in ("init", "dumpfs", "lockfiles", "unlockfiles")]
+        if case["meta"].get("locked"):
+            lk = [r for r in results if r[0] == "lockfiles"]
+            if not lk or lk[0][2].get("ok") != "1":
+                return []      # the file system does not support immutable files: nothing to judge
+            # every call after the lock must fail with exactly one error and change nothing
+            seen_lock = False
+            for name, kv in ops:
+                if name == "lockfiles":
+                    seen_lock = True
+            obs_after = []
+            after = False
+            it_res = iter([r for r in results if r[0] in ("obs", "lockfiles")])
+            for r in it_res:
+                if r[0] == "lockfiles":
+                    after = True
+                elif after:
+                    obs_after.append(r)
+            for kind, idx, o in obs_after:
+                if o["outcome"] in ("nocall",):
+                    continue
+                if not o["outcome"].startswith("failed:") or o["errors"] != "1" or o["logs"] != "-" or o["writes"] != "-":
+                    fails.append({"msg": "obs %d: the snapshot could not be rewritten (immutable file), yet outcome=%s errors=%s logs=%s writes=%s"
+                                         % (idx, o["outcome"], o["errors"], o["logs"], o["writes"])})
         ri = 0
         res = [r for r in results if r[0] in ("obs", "counters", "clean")]
         # "lists exactly the items Clean judged obsolete": when the summary says `removed`, the listed tests are exactly
